@@ -181,6 +181,24 @@ func c16Observe(c *core.Ctx, mask int, other string, want rules.CosmeticOption) 
 		}
 	}
 
+	// The same exception for a site with a single-label name (a NAS, a router,
+	// localhost), restricted to pages of that site: the rule has no literal of
+	// five characters, so the engine finds it through the referring host.
+	if other == "" && !long {
+		host := []string{"nas", "localhost", "tv"}[c.Rng.Intn(3)]
+		t := strings.Replace(text, "||example.org^", "||"+host+"^", 1)
+		if strings.Contains(t, "$") {
+			t += ",domain=" + host
+		} else {
+			t += "$domain=" + host
+		}
+		if _, perr := rules.NewNetworkRule(t, 1); perr == nil {
+			e1 := urlfilter.NewEngine(util.Storage(util.Lines([]string{"##.generic-banner", t})))
+			judge("Engine.MatchRequest(single-label site)", e1.MatchRequest(rules.NewRequest("http://"+host+"/", "http://"+host+"/index.html", rules.TypeDocument)).GetCosmeticOption())
+			c.Event("engine_requests_for_a_single_label_site", 1)
+		}
+	}
+
 	// Path 2: the full engine on a document request.
 	list := []string{text, "##.generic-banner", "~excluded.example##.generic-with-exclusion", "example.org##.specific-banner", "example.*##.specific-wildcard", "other.example##.not-here"}
 	if other != "" {
